@@ -10,7 +10,10 @@ import (
 	"encoding/hex"
 	"encoding/json"
 	"fmt"
+	"io"
+	"log"
 	"os"
+	"regexp"
 	"sort"
 	"strings"
 	"sync"
@@ -35,6 +38,9 @@ func newJob(arch gcnasm.Arch, f gcnasm.Format, opcode int) *job {
 	}
 	j := &job{arch: arch, format: f, opcode: opcode}
 	j.name = gcnasm.NameOf(arch, f, opcode)
+	if j.name == "" && f == gcnasm.VOP3a && opcode >= 896 {
+		j.name = gcnasm.NameOf(arch, gcnasm.VOP3P, opcode-896) // the simulator sees VOP3P as VOP3a opcode 896+OP
+	}
 	j.w = gcnasm.WidthsOf(f, opcode, j.name)
 	if j.name == "" {
 		j.w = gcnasm.Widths{Dst: 1, Src0: 1, Src1: 1, Addr: 1, Data: 1}
@@ -58,28 +64,31 @@ type fieldAgg struct {
 }
 
 type archResult struct {
-	j           *job
-	status      string // not-decoded | decoder-crash | unimplemented | implemented
-	probeMsg    string
-	executions  int
-	judged      int
-	noRef       int
-	corner      int
-	random      int
-	judgedC     int
-	judgedR     int
-	fields      map[string]*fieldAgg
-	fph         map[string][]byte // running fingerprint hash state per field
-	sigs        map[string]bool
-	noRefWhy    map[string]int
-	looseCells  int
-	timingCases int
-	encodeErrs  int
-	encodeErr   string
-	posts       [][32]byte
-	mismCase    []bool
-	looseCase   []bool
-	codes       []string
+	j               *job
+	status          string // not-decoded | decoder-crash | unimplemented | implemented
+	probeMsg        string
+	executions      int
+	judged          int
+	noRef           int
+	corner          int
+	random          int
+	judgedC         int
+	judgedR         int
+	fields          map[string]*fieldAgg
+	fph             map[string][]byte // running fingerprint hash state per field
+	sigs            map[string]bool
+	noRefWhy        map[string]int
+	looseCells      int
+	timingCases     int
+	modUnimpl       map[string]int
+	partUnimpl      int
+	unassignedCrash int
+	encodeErrs      int
+	encodeErr       string
+	posts           [][32]byte
+	mismCase        []bool
+	looseCase       []bool
+	codes           []string
 }
 
 func fpStep(prev []byte, idx int, data []byte) []byte {
@@ -94,6 +103,7 @@ var fpFields = []string{"D", "SDST", "SCC", "VCC", "EXEC", "PC", "M0", "LDS", "M
 
 // baseField maps a violation field to the fingerprint stream it belongs to.
 func baseField(f string) string {
+	f = strings.TrimSuffix(f, "@timing")
 	if i := strings.Index(f, "/"); i >= 0 {
 		f = f[:i]
 	}
@@ -129,7 +139,7 @@ func operandValue(pre *isaspec.State, o gcnasm.Operand, ln int) string {
 }
 
 func runJobArch(x *ctx, c *vlib.Check, j *job, nRandom int, useTiming bool) *archResult {
-	ar := &archResult{j: j, fields: map[string]*fieldAgg{}, fph: map[string][]byte{}, sigs: map[string]bool{}, noRefWhy: map[string]int{}}
+	ar := &archResult{j: j, fields: map[string]*fieldAgg{}, fph: map[string][]byte{}, sigs: map[string]bool{}, noRefWhy: map[string]int{}, modUnimpl: map[string]int{}}
 	r := c.Rand(fmt.Sprintf("rand/%v/%d", j.format, j.opcode))
 	cases := j.gen(nRandom, r)
 	if len(cases) == 0 {
@@ -157,10 +167,25 @@ func runJobArch(x *ctx, c *vlib.Check, j *job, nRandom int, useTiming bool) *arc
 		return ar
 	}
 	ar.status = "implemented"
-	for i, cs := range cases {
-		if useTiming && i%3 == 2 && x.backs[backTiming] != nil {
-			cs.Backing = backTiming
+	timingOnlyCrash := false
+	if useTiming && x.backs[backTiming] != nil {
+		// corner cases flagged Both are executed on both backings; of the others every third uses the timing backing
+		var all []*Case
+		for i, cs := range cases {
+			if cs.Both {
+				dup := *cs
+				dup.Backing = backTiming
+				all = append(all, cs, &dup)
+				continue
+			}
+			if i%3 == 2 {
+				cs.Backing = backTiming
+			}
+			all = append(all, cs)
 		}
+		cases = all
+	}
+	for i, cs := range cases {
 		canon := cs.Class == "corner"
 		res := x.run(j, cs, canon)
 		ar.posts = append(ar.posts, res.post)
@@ -220,15 +245,61 @@ func runJobArch(x *ctx, c *vlib.Check, j *job, nRandom int, useTiming bool) *arc
 			}
 			fa.count++
 		}
+		if res.status == stCrash && strings.Contains(strings.ToLower(res.msg), "not implemented") || res.status == stUnimpl && cs.Tag == "" {
+			// the handler exists but refuses this sub-case with a "not implemented" message: unimplemented, not a violation
+			ar.partUnimpl++
+			continue
+		}
+		if cs.Tag != "" && (res.status == stUnimpl || res.status == stCrash && reModUnimpl.MatchString(res.msg)) {
+			// "SDWA ... not implemented", "Output modifiers are not supported": the implementation does not
+			// accept this modifier for this opcode; per the property that is outside the judged subset
+			ar.modUnimpl[cs.Tag]++
+			continue
+		}
+		if res.status == stCrash || len(res.mism) > 0 {
+			if cs.Backing == backTiming {
+				// decide whether the deviation is specific to the timing-side state backing
+				cs2 := *cs
+				cs2.Backing = backEmu
+				res2 := x.run(j, &cs2, false)
+				emuFields := map[string]bool{}
+				for _, m := range res2.mism {
+					emuFields[m.Field] = true
+				}
+				if res.status == stCrash && !(res2.status == stCrash && crashClass(res2.msg) == crashClass(res.msg)) {
+					res.msg += " (timing-side state backing only)"
+					timingOnlyCrash = true
+				} else {
+					timingOnlyCrash = false
+				}
+				for k := range res.mism {
+					if !emuFields[res.mism[k].Field] {
+						res.mism[k].Field += "@timing"
+					}
+				}
+			} else {
+				timingOnlyCrash = false
+			}
+		}
 		switch res.status {
 		case stCrash:
 			cl := crashClass(res.msg)
+			if timingOnlyCrash {
+				cl += "@timing"
+			}
+			if m := reOperandCrash.FindStringSubmatch(res.msg); m != nil {
+				// raised by the wavefront's operand access, identically for every opcode: one finding per register
+				record("OPERAND:"+m[1], fmt.Sprintf("reading operand register %s panics: %s", m[1], res.msg), nil)
+				break
+			}
+			if j.name == "" {
+				ar.unassignedCrash++ // the architecture's manual does not assign this opcode number: outside the property's subset
+				break
+			}
 			record("CRASH:"+cl, fmt.Sprintf("ALU panics: %s", res.msg), nil)
 			if res.noRefWhy == "" {
 				ar.judged++
 			}
-		case stUnimpl:
-			record("CRASH:partly-unimplemented", fmt.Sprintf("opcode runs for plain operands but panics %q for operand kinds %s", res.msg, cs.Sig), nil)
 		case stNoRef:
 			ar.noRef++
 			ar.noRefWhy[res.noRefWhy]++
@@ -264,6 +335,10 @@ func runJobArch(x *ctx, c *vlib.Check, j *job, nRandom int, useTiming bool) *arc
 	return ar
 }
 
+var reModUnimpl = regexp.MustCompile(`(?i)not implemented|not supported`)
+
+var reOperandCrash = regexp.MustCompile(`Register type (\w+) not supported`)
+
 type jobResult struct {
 	format gcnasm.Format
 	opcode int
@@ -286,6 +361,7 @@ func main() {
 	useTiming := os.Getenv("C03_NO_TIMING") != "1"
 	only := os.Getenv("C03_ONLY") // e.g. "sop2" or "sop2/2"
 	sim.GetIDGenerator()
+	log.SetOutput(io.Discard) // the code under test logs every panic message
 
 	type jobKey struct {
 		f  gcnasm.Format
@@ -337,6 +413,9 @@ func main() {
 	}
 	table := map[string]map[string]*cnt{}
 	var unimplList, noRefList, decCrashList []string
+	opCrash := map[string]*fieldAgg{}
+	dump := []map[string]any{}
+	unimplList, noRefList, decCrashList = []string{}, []string{}, []string{}
 	for _, jr := range results {
 		for ai, arch := range archs {
 			ar := jr.ar[ai]
@@ -378,6 +457,12 @@ func main() {
 			c.Count("random_cases", int64(ar.random))
 			c.Count("timing_backing_cases", int64(ar.timingCases))
 			c.Count("loose_cells_accepted_or_skipped", int64(ar.looseCells))
+			c.Count("executions_refused_not_implemented", int64(ar.partUnimpl))
+			c.Count("crashes_of_opcodes_unassigned_in_the_architecture", int64(ar.unassignedCrash))
+			for tag, n := range ar.modUnimpl {
+				c.Count("executions_modifier_not_accepted_"+tag, int64(n))
+				c.Distinct("opcode_modifier_not_accepted", label+"|"+tag)
+			}
 			if ar.encodeErrs > 0 {
 				c.Count("generator_encode_errors", int64(ar.encodeErrs))
 				fmt.Printf("[C03] note: %d descriptions of %s rejected by the encoder, e.g. %s\n", ar.encodeErrs, label, ar.encodeErr)
@@ -385,6 +470,8 @@ func main() {
 			for s := range ar.sigs {
 				c.Distinct("opcode_operand_kind_signature", label+"|"+s)
 			}
+			c.Sample(map[string]any{"opcode": label, "executions": ar.executions, "judged": ar.judged, "corner": ar.corner, "random": ar.random,
+				"operand_kind_signatures": len(ar.sigs), "timing_backing": ar.timingCases, "mismatching_fields": len(ar.fields)})
 			if ar.judged > 0 {
 				t.Judged++
 				if ar.judgedC > 0 && (ar.judgedR > 0 || nRandom == 0) {
@@ -405,6 +492,21 @@ func main() {
 			}
 			sort.Strings(fields)
 			for _, f := range fields {
+				if strings.HasPrefix(f, "OPERAND:") {
+					k := fmt.Sprintf("C03|%s|any|operand|%s|CRASH", an, strings.TrimPrefix(f, "OPERAND:"))
+					oc := opCrash[k]
+					if oc == nil {
+						oc = &fieldAgg{what: ar.fields[f].what, witness: ar.fields[f].witness}
+						opCrash[k] = oc
+					}
+					oc.count += ar.fields[f].count
+					continue
+				}
+				if strings.HasSuffix(f, "@timing") && !strings.HasPrefix(f, "CRASH") {
+					if _, ok := ar.fields[strings.TrimSuffix(f, "@timing")]; ok {
+						continue // the same field is already wrong on the emulation-side backing: one finding
+					}
+				}
 				if i := strings.Index(f, "/"); i >= 0 && !strings.HasPrefix(f, "CRASH") {
 					if _, ok := ar.fields[f[:i]]; ok {
 						continue // the unmodified form is already wrong: one finding
@@ -423,6 +525,7 @@ func main() {
 				c.Distinct("mismatching_opcode_field", key)
 				what := fmt.Sprintf("%s (%s %s opcode %d), field %s: %s [%d of %d executions]", j.name, an, fn, j.opcode, f, fa.what, fa.count, ar.executions)
 				c.ViolationFP(key, fp, what, fa.witness)
+				dump = append(dump, map[string]any{"property": "C03", "key": key, "fingerprint": fp, "what": what, "witness": fa.witness, "manual": fa.witness["manual"]})
 			}
 		}
 		c.Count("cross_alu_states_compared", int64(jr.cross.compared))
@@ -432,8 +535,24 @@ func main() {
 				jr.format, jr.opcode, jr.cross.unexplained))
 		}
 	}
+	var ock []string
+	for k := range opCrash {
+		ock = append(ock, k)
+	}
+	sort.Strings(ock)
+	for _, k := range ock {
+		oc := opCrash[k]
+		c.Distinct("mismatching_opcode_field", k)
+		c.ViolationFP(k, "", fmt.Sprintf("%s [%d executions over all opcodes]", oc.what, oc.count), oc.witness)
+		dump = append(dump, map[string]any{"property": "C03", "key": k, "fingerprint": "", "what": oc.what, "witness": oc.witness})
+	}
 	sort.Strings(unimplList)
 	sort.Strings(noRefList)
+	if p := os.Getenv("C03_DUMP"); p != "" {
+		// all mismatching (opcode, field) pairs with witness and fingerprint (triage aid; not read by any check)
+		b, _ := json.MarshalIndent(dump, "", " ")
+		_ = os.WriteFile(p, b, 0o644)
+	}
 	c.Set("opcodes", table)
 	c.Set("opcodes_decoded_but_unimplemented", unimplList)
 	c.Set("opcodes_implemented_without_reference", noRefList)
